@@ -117,6 +117,7 @@ EpochManager::ForwardGlobalEpoch()
 
   // store the max/min epoch values for efficiency
   global_epoch_.store(next_epoch, std::memory_order_release);
+  std::atomic_thread_fence(std::memory_order_seq_cst);  // pairs with the fence in Epoch::EnterEpoch
   min_epoch_.store(protected_epochs.back(), std::memory_order_relaxed);
 }
 
